@@ -38,12 +38,12 @@ class Traced(np.ndarray):
 
     def __getitem__(self, key):
         if self.top and isinstance(key, (int, np.integer)):
-            _log("get", self.tag, int(key), getattr(_tl, "node", None), getattr(_tl, "held", 0) > 0)
+            _log("get", self.tag, int(key), getattr(_tl, "node", None), frozenset(getattr(_tl, "locks", ())))
         return super().__getitem__(key)
 
     def __setitem__(self, key, value):
         if self.top and isinstance(key, (int, np.integer)):
-            _log("set", self.tag, int(key), getattr(_tl, "node", None), getattr(_tl, "held", 0) > 0)
+            _log("set", self.tag, int(key), getattr(_tl, "node", None), frozenset(getattr(_tl, "locks", ())))
         return super().__setitem__(key, value)
 
 
@@ -65,23 +65,30 @@ class NpProxy:
 
 
 class TracedLock:
+    """a real lock that records, per thread, which traced locks are currently held"""
     def __init__(self):
         self._l = threading.Lock()
 
+    def _add(self):
+        _tl.locks = set(getattr(_tl, "locks", ())) | {id(self)}
+
+    def _del(self):
+        _tl.locks = set(getattr(_tl, "locks", ())) - {id(self)}
+
     def __enter__(self):
-        self._l.acquire(); _tl.held = getattr(_tl, "held", 0) + 1; return self
+        self._l.acquire(); self._add(); return self
 
     def __exit__(self, *a):
-        _tl.held -= 1; self._l.release()
+        self._del(); self._l.release()
 
     def acquire(self, *a, **k):
         r = self._l.acquire(*a, **k)
         if r:
-            _tl.held = getattr(_tl, "held", 0) + 1
+            self._add()
         return r
 
     def release(self):
-        _tl.held -= 1; self._l.release()
+        self._del(); self._l.release()
 
     def locked(self):
         return self._l.locked()
@@ -111,7 +118,7 @@ def instrumented(fn):
         depth = {int(n.id): i for i, l in enumerate(layers) for n in l}
 
         def wrapped(n):
-            _tl.node = int(n.id); _tl.held = 0
+            _tl.node = int(n.id); _tl.locks = set()
             _log("start", int(n.id), depth[int(n.id)], threading.get_ident())
             try:
                 return eval_func(n)
@@ -138,11 +145,16 @@ def conformance(root, events, layers_rec, topdown):
     kids = {int(o.id): [int(c.id) for c in o.children] for o in objs}
     problems = []
     depth = {}
+    common = {}      # mask row -> locks held during EVERY write to it (mutual exclusion needs a common one)
     for rec in layers_rec:
         for i, l in enumerate(rec["layers"]):
             for n in l:
                 depth[n] = i
+    epoch = 0        # one epoch per top-down call (each creates its own lock)
     for e in events:
+        if e[0] == "lock-created":
+            epoch += 1
+            continue
         if e[0] == "set" and e[1] == "ls":
             if e[3] is not None and e[2] != e[3]:
                 problems.append(dict(what="task writes another node's ls row", node=e[3], row=e[2]))
@@ -156,8 +168,12 @@ def conformance(root, events, layers_rec, topdown):
                 problems.append(dict(what="task writes a mask row that is not one of its children's", node=e[3], row=e[2]))
             if not e[4]:
                 problems.append(dict(what="mask row written outside the lock", node=e[3], row=e[2]))
+            common[(epoch, e[2])] = e[4] if (epoch, e[2]) not in common else (common[(epoch, e[2])] & e[4])
             if e[2] in depth and e[3] in depth and depth[e[2]] <= depth[e[3]]:
                 problems.append(dict(what="mask row of the same or a shallower layer written", node=e[3], row=e[2]))
+    for row, locks in common.items():
+        if not locks:
+            problems.append(dict(what="writes to one mask row are not all protected by a common lock", row=row[1]))
     if topdown:
         # every inner node processed in parallel must have propagated its mask to each of its children
         done = {(e[3], e[2]) for e in events if e[0] == "set" and e[1] == "masks" and e[3] is not None}
@@ -171,15 +187,21 @@ def conformance(root, events, layers_rec, topdown):
     return problems
 
 
-def shared_child_dag(rs, n_parents, n_vars=3):
-    """many product parents of ONE layer sharing children (the situation in which an unlocked update is lost)."""
+def shared_child_dag(rs, n_parents, n_vars=3, kind="prod"):
+    """many parents of ONE layer sharing children (the situation in which an unlocked update is lost):
+    kind 'prod' = product parents over shared leaves, kind 'sum' = sum parents sharing leaves of one variable."""
     from deeprob.spn.structure.leaf import Bernoulli
     from deeprob.spn.structure.node import Sum, Product, assign_ids
-    shared = [Bernoulli(v, float(rs.randint(1, 16) / 16.0)) for v in range(n_vars)]
-    parents = []
-    for i in range(n_parents):
-        own = Bernoulli(n_vars, float(rs.randint(1, 16) / 16.0))
-        parents.append(Product(children=shared + [own]))
+    if kind == "sum":
+        shared = [Bernoulli(0, float(rs.randint(1, 16) / 16.0)) for _ in range(max(2, n_vars))]
+        parents = [Sum(children=list(shared), weights=np.array(G.dyadic_weights(rs, len(shared), 5), dtype=np.float32))
+                   for _ in range(n_parents)]
+    else:
+        shared = [Bernoulli(v, float(rs.randint(1, 16) / 16.0)) for v in range(n_vars)]
+        parents = []
+        for i in range(n_parents):
+            own = Bernoulli(n_vars, float(rs.randint(1, 16) / 16.0))
+            parents.append(Product(children=shared + [own]))
     root = Sum(children=parents, weights=np.array(G.dyadic_weights(rs, n_parents, 6), dtype=np.float32))
     assign_ids(root)
     return root
@@ -189,15 +211,18 @@ def stress(seed, n_parents=16, n_rows=400000, reps=3):
     """search: parallel sample on all-NaN rows; counts cells left unfilled (a lost mask update)."""
     from deeprob.spn.algorithms.sampling import sample
     rs = np.random.RandomState(seed % (2 ** 31))
-    root = shared_child_dag(rs, n_parents, n_vars=1)
-    width = 2
-    worst = 0
-    for _ in range(reps):
-        x = np.full((n_rows, width), np.nan, dtype=np.float32)
-        np.random.seed(int(rs.randint(2 ** 31 - 1)))
-        y = sample(root, x, n_jobs=16)
-        worst = max(worst, int(np.isnan(y).sum()))
-    return dict(n_parents=n_parents, n_rows=n_rows, unfilled_cells=worst)
+    out = dict(n_parents=n_parents, n_rows=n_rows, unfilled_cells=0)
+    for kind in ("prod", "sum"):
+        root = shared_child_dag(rs, n_parents, n_vars=1 if kind == "prod" else 2, kind=kind)
+        width = 2 if kind == "prod" else 1
+        worst = 0
+        for _ in range(reps):
+            x = np.full((n_rows, width), np.nan, dtype=np.float32)
+            np.random.seed(int(rs.randint(2 ** 31 - 1)))
+            y = sample(root, x, n_jobs=16)
+            worst = max(worst, int(np.isnan(y).sum()))
+        out["unfilled_" + kind] = worst; out["unfilled_cells"] = max(out["unfilled_cells"], worst)
+    return out
 
 
 def main(tier, seed, replay=None):
@@ -214,7 +239,7 @@ def main(tier, seed, replay=None):
     specs = []
     for i in range(ncirc):
         if i % 2 == 0:
-            specs.append(("shared", shared_child_dag(rs, int(rs.choice([2, 4, 8, 16])), n_vars=int(rs.randint(1, 4)))))
+            specs.append(("shared", shared_child_dag(rs, int(rs.choice([2, 4, 8, 16])), n_vars=int(rs.randint(1, 4)), kind=["prod", "sum"][(i // 2) % 2])))
         else:
             specs.append(("random", c01.gen_circuit(rs, i, tier, kinds=[("bern",), ("bern", "cat")][i % 4 // 2 % 2], clt=0.2)))
     for tag, root in specs:
